@@ -75,6 +75,20 @@ MISSED_AT_FIRST = {
  "C19-9": "the mock never answered 'interrupted'; -4 added to the C return values (a wrapper that retries shows as a different result)",
  "C19-10": "conversions were always used at once; a reproc::arguments held while its source container is overwritten and cleared added",
  "C11-10": "the change lists /proc/self/fd with open + the raw getdents64 system call; syscall() was outside the seam (infrastructure error, no verdict) and no configuration had the > 168 open descriptors it needs; open/getdents64 on the descriptor directory are now emulated and the wiring family has a caller with 230 further inheritable descriptors",
+ "C02-11": "caught by the large-transfer drain family (owned by C16) only; that family is now also run by C02, and a drain that reports both streams ended while bytes of one were never delivered is C02's as well",
+ "C03-11": "no environment or argument entry was longer than a few bytes; entries of 32 KiB, 40000 and 70000 bytes added (run tokens in the script language)",
+ "C03-12": "the child's working directory was not among the expectations of the fault-sweep scenarios (a faulted chdir that is ignored went unnoticed), and no start named a directory that cannot be entered; both added, for exec and for fork mode",
+ "C04-11": "caught by the interleaving family only (not run by C04); it is now, and its scenario with one failing start is attributed to C04 as well",
+ "C04-12": "no fork-mode start had a child-side failure; fork mode with a missing / non-directory working directory added",
+ "C06-12": "the change uses waitid(), which was outside the seam (infrastructure error, no verdict); waitid is emulated now (incl. CLD_DUMPED and WNOWAIT), the status family (signals with and without core flag) is run by C06 too, and a wait that reaps yet reports failure is attributed to C06",
+ "C08-11": "no deadline beyond a few ticks except in the destroy family; deadlines of an hour and of more than 2^32 microseconds added to the restart family and to the poll simulation pass",
+ "C09-12": "no interest mask had the deadline bit without the exit bit; added (output + deadline, deadline alone)",
+ "C10-11": "no descriptor number reached 1024; a caller with a full table below 1040 added (the library's own pipes and a user handle on 1050 are all beyond a select-style set)",
+ "C11-11": "the change uses fexecve(), which was outside the seam (infrastructure error, no verdict); emulated now",
+ "C12-11": "no caller mask contained the synchronously raised signals (ILL BUS FPE SEGV) or was 'everything'; both added",
+ "C13-12": "a refused start was only followed by pid(); the restart family now has a refusal (with and without a deadline) as one of the failed attempts, is run by C13, and behaviours whose failed attempt was a refusal are attributed to C13",
+ "C17-11": "the stream family had no child that ends while a descendant keeps its streams (exit status collected, streams still open); added for one start option",
+ "C19-11": "start() was never given a null argument vector; added (it must stay start(): fork = false, argv passed on as it is)",
  "C18-10": "NOT CAUGHT: needs another thread changing the parent's environment block between two snapshots inside one start; the threaded mode of the Windows driver gives every thread its own parent block",
 }
 
